@@ -63,14 +63,15 @@ package cache
 //@   ensures @known scopesKnown(ca)
 //@   ensures[C09,C08,C05] @unique old(unique(ca)) ==> unique(ca)
 //@   ensures[C09,C08,C05] @sized old(sized(ca)) ==> sized(ca)
-//@   ensures[C09,C08,C05] @acct old(shape(ca) && acct(ca) && capped(ca)) ==> acct(ca) && capped(ca)
+//@   ensures[C09] @acct old(shape(ca) && acct(ca) && capped(ca)) ==> acct(ca) && capped(ca)
 //@   use old(tsumOne(ca.Cache, 0))
 //@   use tsumSplit(ca.Cache, 0, len(ca.Cache)-1, len(ca.Cache)) && tsumOne(ca.Cache, len(ca.Cache)-1) && tsumSame(ca.Cache, 0, len(ca.Cache)-1)
 
 //@ func (*Cache).Pop
 //@   serves C09
 //@   requires shape(ca)
-//@   requires[C09,C08,C05] unique(ca) && sized(ca) && acct(ca) && capped(ca)
+//@   requires[C09,C08,C05] unique(ca) && sized(ca)
+//@   requires[C09] acct(ca) && capped(ca)
 //@   modifies ca.Cache, ca.Cache[*], ca.CacheUseSize, ca.Sizes[*]
 //@   ensures @shape shape(ca) && result == nil
 //@   ensures @backing sameBacking(ca.Cache, old(ca.Cache)) || fresh(ca.Cache)
@@ -78,7 +79,7 @@ package cache
 //@   ensures @known scopesKnown(ca)
 //@   ensures[C09,C08,C05] @unique unique(ca)
 //@   ensures[C09,C08,C05] @sized sized(ca)
-//@   ensures[C09,C08,C05] @acct acct(ca) && capped(ca)
+//@   ensures[C09] @acct acct(ca) && capped(ca)
 //@   ensures[C09] @total total(ca) == old(total(ca)) - old(msum(top(ca)))
 //@   use old(tsumSplit(ca.Cache, 0, len(ca.Cache)-1, len(ca.Cache))) && old(tsumOne(ca.Cache, len(ca.Cache)-1)) && old(tsumOne(ca.Cache, 0))
 //@   use tsumSame(ca.Cache, 0, old(len(ca.Cache))-1) && tsumOne(ca.Cache, 0)
@@ -98,12 +99,13 @@ package cache
 //@ func (*Cache).Add
 //@   serves C09
 //@   requires shape(ca) && int(ca.CacheSize) + len(value) < 4294967296
-//@   requires[C09,C08,C05] unique(ca) && sized(ca) && acct(ca) && capped(ca)
+//@   requires[C09,C08,C05] unique(ca) && sized(ca)
+//@   requires[C09] acct(ca) && capped(ca)
 //@   modifies ca.CacheUseSize, ca.LastValue, ca.Sizes[key], ca.Cache[len(ca.Cache)-1][key]
 //@   ensures @shape shape(ca) && sameScopes(ca)
 //@   ensures[C09,C08,C05] @unique unique(ca)
 //@   ensures[C09,C08,C05] @sized sized(ca)
-//@   ensures[C09,C08,C05] @acct acct(ca) && capped(ca)
+//@   ensures[C09] @acct acct(ca) && capped(ca)
 //@   ensures @limit sizeLimit > 0 && len(value) > int(sizeLimit) ==> result != nil
 //@   ensures @dup old(visible(ca, key)) ==> result != nil
 //@   ensures @errdup result == ErrDup ==> old(visible(ca, key))
@@ -124,13 +126,14 @@ package cache
 //@ func (*Cache).Update
 //@   serves C09
 //@   requires shape(ca) && int(ca.CacheSize) + len(value) < 4294967296
-//@   requires[C09,C08,C05] unique(ca) && sized(ca) && acct(ca) && capped(ca)
+//@   requires[C09,C08,C05] unique(ca) && sized(ca)
+//@   requires[C09] acct(ca) && capped(ca)
 //@   modifies ca.CacheUseSize, ca.Cache[scope(ca, key)][key]
 //@   ensures @shape shape(ca) && sameScopes(ca)
 //@   ensures[C09,C08,C05] @unique unique(ca)
 //@   ensures[C09,C08,C05] @sized sized(ca)
-//@   ensures[C09,C08,C05] @acct acct(ca)
-//@   ensures[C09,C08,C05] @capped capped(ca)
+//@   ensures[C09] @acct acct(ca)
+//@   ensures[C09] @capped capped(ca)
 //@   ensures @limit old(ca.Sizes[key]) > 0 && len(value) > int(old(ca.Sizes[key])) ==> result != nil
 //@   ensures @missing !old(visible(ca, key)) ==> result != nil
 //@   ensures @capacity ca.CacheSize > 0 && old(total(ca)) - old(len(ca.Cache[scope(ca, key)][key])) + len(value) > int(ca.CacheSize) ==> result != nil
@@ -156,14 +159,15 @@ package cache
 //@ func (*Cache).Reset
 //@   serves C09
 //@   requires shape(ca)
-//@   requires[C09,C08,C05] unique(ca) && sized(ca) && acct(ca) && capped(ca)
+//@   requires[C09,C08,C05] unique(ca) && sized(ca)
+//@   requires[C09] acct(ca) && capped(ca)
 //@   modifies ca.Cache, ca.CacheUseSize
 //@   ensures @scopes len(ca.Cache) == 1 && ca.Cache[0] == old(ca.Cache[0]) && sameBacking(ca.Cache, old(ca.Cache))
 //@   ensures @shape shape(ca)
 //@   ensures[C09,C08,C05] @unique unique(ca)
 //@   ensures[C09,C08,C05] @sized sized(ca)
-//@   ensures[C09,C08,C05] @acct acct(ca)
-//@   ensures[C09,C08,C05] @capped capped(ca)
+//@   ensures[C09] @acct acct(ca)
+//@   ensures[C09] @capped capped(ca)
 //@   ensures[C09] @released total(ca) == old(msum(ca.Cache[0]))
 //@   use old(tsumSplit(ca.Cache, 0, 1, len(ca.Cache))) && old(tsumOne(ca.Cache, 0))
 //@   use tsumOne(ca.Cache, 0)
